@@ -166,8 +166,6 @@ ADDENDA = {
            "exceptions are violations.",
     "C08": "Added: with penalty_terms the solver Hamiltonian equals H + sum w (O - t)^2 built from the reference N/Sz/S^2 under the solver's encoding; "
            "operator_expectation with QubitOperator and FermionOperator inputs; the energy re-evaluated after all intermediate calls.",
-    "C09": "Added: structural E2 histories on one Circuit object: all 64 sequences of 3 operations over {get_entangled_indices, split, reindex_qubits, trim_qubits} per circuit, oracle = subsets / parts / relabelling of the current gate list.",
-    "C11": "Added: translate / simulate with a noise model (depol + pauli on every gate name) as read-only operations of the state graph.",
     "C10": "Added: deterministic programs on registers of 9-12 qubits with 1-2 mid-circuit measurements and finite shots (all tables and the post-selected expectation value).",
     "C12": "Added: triplet H4 in the quick-tier conservation set.",
     "C13": "Added: a second get_rdm on the same classical solver returns the same matrices.",
@@ -179,9 +177,28 @@ ADDENDA = {
            "compared with a fresh histogram afterwards; resampling with shot numbers on both sides of the 10**7 chunk.",
     "C19": "Added: E2 histories on ONE live NoiseModel + backend (add_quantum_error after use, simulate on shared / new backend, translate), depth <= 4 (5); noise "
            "together with a mid-circuit MEASURE, a desired outcome and an initial statevector (retry loop explored with horizon 3 attempts).",
-    "C20": "Added: circuit unitaries that leave a qubit below their width idle; the StateVector object asked again after its first answers. Also: ONE unitary object serving QPE solvers with 3-, 2-, 1-, 3-qubit registers in a row.",
+    "C20": "Added: circuit unitaries that leave a qubit below their width idle; the StateVector object asked again after its first answers.",
 }
 for _k, _v in ADDENDA.items():
     CLAIMED[_k]["text"] += " " + _v
 NOTES += (" An exception raised by the code under test on input the harness considers valid is reported as a violation "
-          "(uncaught-exception-in-code-under-test/...), with the shard as replay case.") Also: variance / standard error with finite shots for complex coefficients; expectation values with 2500001 and 10**7 +- 1 shots (chunked sampling, draws grouped into calls of exactly n_shots samples, bulk trees capped at 64 executions). Also: list selections handed to freeze_mos in descending order; ONE IntegralSolverPySCF object building molecules at two geometries in a row. Also: coefficient x time exactly a multiple of pi (pi/2 .. 3pi, both signs) with every control form. Also: sign-decorrelated dense vectors and a lattice family (parameters related by x_j = +-x_i, +-2 x_i: all vectors over {+-a,+-2a} for n <= 3, related pairs inside the dense vector otherwise), one update from the generic start state each. Also: the same Circuit and backend objects serve both initial states of a program; CMEASURE programs with a requested outcome string and 1-2 shots (every shot conditioned). Also: the exported artefact is imported a second time (same object).
+          "(uncaught-exception-in-code-under-test/...), with the shard as replay case.")
+
+# Families added after waves 3 (late) and 4 (DESIGN.md 8.2, 8.3).
+ADDENDA2 = {
+    "C02": "Also: variance / standard error with finite shots for complex coefficients; expectation values with 2500001 and 10**7 +- 1 shots "
+           "(chunked sampling: draws grouped into calls of exactly n_shots samples; bulk trees capped at 64 executions).",
+    "C04": "Also: list selections handed to freeze_mos in descending order; ONE IntegralSolverPySCF object building molecules at two geometries in a row.",
+    "C06": "Also: coefficient x time exactly a multiple of pi (pi/2 .. 3pi, both signs) with every control form.",
+    "C07": "Also: sign-decorrelated dense vectors and a lattice family (parameters related by x_j = +-x_i, +-2 x_i: all vectors over {+-a,+-2a} for "
+           "n <= 3, related pairs inside the dense vector otherwise), one update from the generic start state each.",
+    "C09": "Added: structural E2 histories on one Circuit object: all 64 sequences of 3 operations over {get_entangled_indices, split, "
+           "reindex_qubits, trim_qubits} per circuit; oracle = subsets / parts / relabelling of the current gate list.",
+    "C10": "Also: the same Circuit and backend objects serve both initial states of a program; CMEASURE programs with a requested outcome string "
+           "and 1-2 shots (every shot conditioned).",
+    "C11": "Added: translate / simulate with a noise model (depol + pauli on every gate name) as read-only operations of the state graph.",
+    "C17": "Also: the exported artefact is imported a second time (same object).",
+    "C20": "Also: ONE unitary object serving QPE solvers with 3-, 2-, 1-, 3-qubit registers in a row.",
+}
+for _k, _v in ADDENDA2.items():
+    CLAIMED[_k]["text"] += " " + _v
